@@ -429,3 +429,269 @@ pub proof fn lemma_table_remove(pre: &KademliaRoutingTable, post: &KademliaRouti
         }
     }
 }
+
+
+// ---------------------------------------------------------------------------------------------
+// find_closest_nodes: the answer is exactly the min(count, size) closest entries, ascending, each once.
+// ---------------------------------------------------------------------------------------------
+pub assume_specification<T, P: FnOnce(&T) -> bool> [Option::<T>::filter] (o: Option<T>, p: P) -> (r: Option<T>)
+    requires o.is_some() ==> call_requires(p, (&o.unwrap(),)),
+    ensures o.is_none() ==> r.is_none(),
+            o.is_some() ==> ((call_ensures(p, (&o.unwrap(),), true) && r == o) || (call_ensures(p, (&o.unwrap(),), false) && r.is_none()));
+
+impl Clone for NodeInfo {
+    #[verifier::external_body]
+    fn clone(&self) -> (r: Self) ensures r == *self { unimplemented!() }
+}
+
+pub open spec fn lex_lt(x: Seq<u8>, y: Seq<u8>) -> bool {
+    exists|i: int| 0 <= i < 32 && x[i] < y[i] && forall|j: int| 0 <= j < i ==> x[j] == y[j]
+}
+pub open spec fn lex_le(x: Seq<u8>, y: Seq<u8>) -> bool { x == y || lex_lt(x, y) }
+
+pub open spec fn visited(b: int, t: int, offset: int) -> bool {
+    0 <= b < 256 && ((b >= t && b - t < offset) || (b < t && t - b < offset))
+}
+pub open spec fn is_perm(p: Seq<int>, q: Seq<int>, n: int) -> bool {
+    p.len() == n && q.len() == n
+    && (forall|i: int| 0 <= i < n ==> 0 <= #[trigger] p[i] < n && q[p[i]] == i)
+    && (forall|k: int| 0 <= k < n ==> 0 <= #[trigger] q[k] < n && p[q[k]] == k)
+}
+pub open spec fn tail_post(c: Seq<(NodeInfo, [u8; 32])>, count: usize, r: Seq<NodeInfo>) -> bool {
+    exists|p: Seq<int>, q: Seq<int>| is_perm(p, q, c.len() as int)
+        && (forall|i: int, j: int| 0 <= i < j < c.len() ==> lex_le(#[trigger] c[p[i]].1@, #[trigger] c[p[j]].1@))
+        && r.len() == (if count <= c.len() { count as int } else { c.len() as int })
+        && (forall|i: int| 0 <= i < r.len() ==> #[trigger] r[i] == c[p[i]].0)
+}
+pub open spec fn cand_ok(t: &KademliaRoutingTable, key: &DhtKey, c: (NodeInfo, [u8; 32]), b: int, j: int) -> bool {
+    0 <= b < 256 && 0 <= j < t.buckets@[b].nodes@.len() && c.0 == t.buckets@[b].nodes@[j] && is_xor(c.0.id.0.0, key.0, c.1)
+}
+
+pub open spec fn vis_a(b: int, tb: int, off: int) -> bool { visited(b, tb, off) || b == tb + off }
+pub open spec fn vis_b(b: int, tb: int, off: int) -> bool { vis_a(b, tb, off) || b == tb - off }
+
+/// candidate `c` is a copy of table entry (b, j) with its distance, and that entry has been
+/// collected already: its bucket was fully walked (`done`), or it is entry j < jp of the bucket bp
+/// being walked.
+pub open spec fn origin(t: &KademliaRoutingTable, key: &DhtKey, c: (NodeInfo, [u8; 32]), tb: int, off: int, stage: int, bp: int, jp: int) -> bool {
+    exists|b: int, j: int| #[trigger] cand_ok(t, key, c, b, j)
+        && ((stage == 0 && visited(b, tb, off)) || (stage == 1 && vis_a(b, tb, off)) || (stage == 2 && vis_b(b, tb, off)) || (b == bp && j < jp))
+}
+pub open spec fn all_origin(t: &KademliaRoutingTable, key: &DhtKey, cs: Seq<(NodeInfo, [u8; 32])>, tb: int, off: int, stage: int, bp: int, jp: int) -> bool {
+    forall|k: int| 0 <= k < cs.len() ==> #[trigger] origin(t, key, cs[k], tb, off, stage, bp, jp)
+}
+/// table entry (b, j) has been collected.
+pub open spec fn covered(t: &KademliaRoutingTable, cs: Seq<(NodeInfo, [u8; 32])>, b: int, j: int) -> bool {
+    exists|k: int| 0 <= k < cs.len() && (#[trigger] cs[k]).0 == t.buckets@[b].nodes@[j]
+}
+pub open spec fn all_covered(t: &KademliaRoutingTable, cs: Seq<(NodeInfo, [u8; 32])>, tb: int, off: int, stage: int, bp: int, jp: int) -> bool {
+    forall|b: int, j: int| 0 <= b < 256 && 0 <= j < t.buckets@[b].nodes@.len()
+        && ((stage == 0 && visited(b, tb, off)) || (stage == 1 && vis_a(b, tb, off)) || (stage == 2 && vis_b(b, tb, off)) || (b == bp && j < jp))
+        ==> #[trigger] covered(t, cs, b, j)
+}
+pub open spec fn ids_distinct(cs: Seq<(NodeInfo, [u8; 32])>) -> bool {
+    forall|k1: int, k2: int| 0 <= k1 < cs.len() && 0 <= k2 < cs.len() && k1 != k2 ==> (#[trigger] cs[k1]).0.id != (#[trigger] cs[k2]).0.id
+}
+
+/// Pushing the copy of entry (bp, jp) extends all three invariants from jp to jp + 1.
+pub proof fn lemma_push(t: &KademliaRoutingTable, key: &DhtKey, cs: Seq<(NodeInfo, [u8; 32])>, c: (NodeInfo, [u8; 32]), tb: int, off: int, stage: int, bp: int, jp: int)
+    requires
+        t.wf(), 0 <= tb < 256, 0 <= off < 256,
+        all_origin(t, key, cs, tb, off, stage, bp, jp), all_covered(t, cs, tb, off, stage, bp, jp), ids_distinct(cs),
+        cand_ok(t, key, c, bp, jp),
+        // the bucket being walked was not fully collected before
+        stage == 0 ==> !visited(bp, tb, off), stage == 1 ==> !vis_a(bp, tb, off), stage == 2 ==> false,
+    ensures
+        all_origin(t, key, cs.push(c), tb, off, stage, bp, jp + 1), all_covered(t, cs.push(c), tb, off, stage, bp, jp + 1), ids_distinct(cs.push(c)),
+{
+    let ns = cs.push(c);
+    lemma_wf_each_peer_once(t);
+    assert forall|k: int| 0 <= k < ns.len() implies #[trigger] origin(t, key, ns[k], tb, off, stage, bp, jp + 1) by {
+        if k < cs.len() {
+            assert(ns[k] == cs[k]);
+            assert(origin(t, key, cs[k], tb, off, stage, bp, jp));
+            let (b, j) = choose|b: int, j: int| #[trigger] cand_ok(t, key, cs[k], b, j)
+                && ((stage == 0 && visited(b, tb, off)) || (stage == 1 && vis_a(b, tb, off)) || (stage == 2 && vis_b(b, tb, off)) || (b == bp && j < jp));
+            assert(cand_ok(t, key, ns[k], b, j));
+        } else {
+            assert(ns[k] == c);
+            assert(cand_ok(t, key, ns[k], bp, jp));
+        }
+    }
+    assert forall|b: int, j: int| 0 <= b < 256 && 0 <= j < t.buckets@[b].nodes@.len()
+        && ((stage == 0 && visited(b, tb, off)) || (stage == 1 && vis_a(b, tb, off)) || (stage == 2 && vis_b(b, tb, off)) || (b == bp && j < jp + 1))
+        implies #[trigger] covered(t, ns, b, j) by {
+        if b == bp && j == jp {
+            assert(ns[cs.len() as int].0 == t.buckets@[b].nodes@[j]);
+        } else {
+            assert(covered(t, cs, b, j));
+            let k = choose|k: int| 0 <= k < cs.len() && (#[trigger] cs[k]).0 == t.buckets@[b].nodes@[j];
+            assert(ns[k].0 == t.buckets@[b].nodes@[j]);
+        }
+    }
+    assert forall|k1: int, k2: int| 0 <= k1 < ns.len() && 0 <= k2 < ns.len() && k1 != k2 implies (#[trigger] ns[k1]).0.id != (#[trigger] ns[k2]).0.id by {
+        if k1 < cs.len() && k2 < cs.len() {
+            assert(ns[k1] == cs[k1] && ns[k2] == cs[k2]);
+        } else {
+            let ko = if k1 < cs.len() { k1 } else { k2 };
+            assert(ns[ko] == cs[ko]);
+            assert(origin(t, key, cs[ko], tb, off, stage, bp, jp));
+            let (b, j) = choose|b: int, j: int| #[trigger] cand_ok(t, key, cs[ko], b, j)
+                && ((stage == 0 && visited(b, tb, off)) || (stage == 1 && vis_a(b, tb, off)) || (stage == 2 && vis_b(b, tb, off)) || (b == bp && j < jp));
+            // (b, j) != (bp, jp), so by each_peer_once the ids differ
+            assert(cs[ko].0 == t.buckets@[b].nodes@[j]);
+            assert(c.0 == t.buckets@[bp].nodes@[jp]);
+            assert(!(b == bp && j == jp));
+            if cs[ko].0.id == c.0.id {
+                assert(t.buckets@[b].nodes@[j].id == t.buckets@[bp].nodes@[jp].id);
+                assert(b == bp && j == jp);
+            }
+        }
+    }
+}
+
+/// Moving to the next stage when the walked bucket is complete (jp == its length), or skipped.
+pub proof fn lemma_stage(t: &KademliaRoutingTable, key: &DhtKey, cs: Seq<(NodeInfo, [u8; 32])>, tb: int, off: int, stage: int, bp: int, jp: int, stage2: int, off2: int)
+    requires
+        t.wf(), 0 <= tb < 256,
+        all_origin(t, key, cs, tb, off, stage, bp, jp), all_covered(t, cs, tb, off, stage, bp, jp),
+        // the target stage covers exactly what the source stage plus the completed bucket covers
+        forall|b: int| 0 <= b < 256 ==>
+            (((stage == 0 && visited(b, tb, off)) || (stage == 1 && vis_a(b, tb, off)) || (stage == 2 && vis_b(b, tb, off)) || (b == bp && 0 <= bp < 256 && jp >= t.buckets@[bp].nodes@.len()))
+             <==> ((stage2 == 0 && visited(b, tb, off2)) || (stage2 == 1 && vis_a(b, tb, off2)) || (stage2 == 2 && vis_b(b, tb, off2)))),
+        (0 <= bp < 256) ==> jp == 0 || jp >= t.buckets@[bp].nodes@.len(),
+    ensures
+        all_origin(t, key, cs, tb, off2, stage2, -1, 0), all_covered(t, cs, tb, off2, stage2, -1, 0),
+{
+    assert forall|k: int| 0 <= k < cs.len() implies #[trigger] origin(t, key, cs[k], tb, off2, stage2, -1, 0) by {
+        assert(origin(t, key, cs[k], tb, off, stage, bp, jp));
+        let (b, j) = choose|b: int, j: int| #[trigger] cand_ok(t, key, cs[k], b, j)
+            && ((stage == 0 && visited(b, tb, off)) || (stage == 1 && vis_a(b, tb, off)) || (stage == 2 && vis_b(b, tb, off)) || (b == bp && j < jp));
+        assert(cand_ok(t, key, cs[k], b, j));
+    }
+    assert forall|b: int, j: int| 0 <= b < 256 && 0 <= j < t.buckets@[b].nodes@.len()
+        && ((stage2 == 0 && visited(b, tb, off2)) || (stage2 == 1 && vis_a(b, tb, off2)) || (stage2 == 2 && vis_b(b, tb, off2)) || (b == -1 && j < 0))
+        implies #[trigger] covered(t, cs, b, j) by {
+    }
+}
+
+/// Starting to walk bucket bp (nothing of it collected yet).
+pub proof fn lemma_rebase(t: &KademliaRoutingTable, key: &DhtKey, cs: Seq<(NodeInfo, [u8; 32])>, tb: int, off: int, stage: int, bp: int)
+    requires all_origin(t, key, cs, tb, off, stage, -1, 0), all_covered(t, cs, tb, off, stage, -1, 0),
+    ensures all_origin(t, key, cs, tb, off, stage, bp, 0), all_covered(t, cs, tb, off, stage, bp, 0),
+{
+    assert forall|k: int| 0 <= k < cs.len() implies #[trigger] origin(t, key, cs[k], tb, off, stage, bp, 0) by {
+        assert(origin(t, key, cs[k], tb, off, stage, -1, 0));
+        let (b, j) = choose|b: int, j: int| #[trigger] cand_ok(t, key, cs[k], b, j)
+            && ((stage == 0 && visited(b, tb, off)) || (stage == 1 && vis_a(b, tb, off)) || (stage == 2 && vis_b(b, tb, off)) || (b == -1 && j < 0));
+        assert(cand_ok(t, key, cs[k], b, j));
+    }
+}
+
+/// XOR distance of an id to the key, as a 32-byte big-endian number (most significant byte first).
+pub open spec fn dist(id: NodeId, key: &DhtKey) -> Seq<u8> {
+    Seq::new(32, |i: int| id.0.0[i] ^ key.0[i])
+}
+/// The property, from the statement: at most `count` entries, each listed in the table, in strictly
+/// ascending distance order (hence each peer once), and a listed peer is left out only when the
+/// answer is full and every returned peer is strictly closer (so the answer is exactly the
+/// min(count, size) closest).
+pub open spec fn fcn_post(t: &KademliaRoutingTable, key: &DhtKey, count: usize, r: Seq<NodeInfo>) -> bool {
+    &&& r.len() <= count
+    &&& forall|i: int| 0 <= i < r.len() ==> t.lists((#[trigger] r[i]).id)
+    &&& forall|i: int, j: int| 0 <= i < j < r.len() ==> lex_lt(dist((#[trigger] r[i]).id, key), dist((#[trigger] r[j]).id, key))
+    &&& forall|q: NodeId| #[trigger] t.lists(q) && !(exists|i: int| 0 <= i < r.len() && (#[trigger] r[i]).id == q) ==>
+            r.len() == count && forall|i: int| 0 <= i < r.len() ==> lex_lt(dist((#[trigger] r[i]).id, key), dist(q, key))
+}
+
+proof fn lemma_xor_cancel(x: u8, y: u8, k: u8)
+    ensures (x ^ k == y ^ k) ==> x == y
+{
+    assert((x ^ k == y ^ k) ==> x == y) by (bit_vector);
+}
+/// Equal XOR distances to the same key mean equal ids.
+pub proof fn lemma_dist_injective(a: NodeId, b: NodeId, key: &DhtKey)
+    requires dist(a, key) == dist(b, key),
+    ensures a == b,
+{
+    assert forall|i: int| 0 <= i < 32 implies a.0.0[i] == b.0.0[i] by {
+        assert(dist(a, key)[i] == dist(b, key)[i]);
+        assert(dist(a, key)[i] == a.0.0[i] ^ key.0[i]);
+        assert(dist(b, key)[i] == b.0.0[i] ^ key.0[i]);
+        lemma_xor_cancel(a.0.0[i], b.0.0[i], key.0[i]);
+    }
+    assert(a.0.0 =~= b.0.0);
+}
+pub proof fn lemma_is_xor_dist(id: NodeId, key: &DhtKey, d: [u8; 32])
+    requires is_xor(id.0.0, key.0, d),
+    ensures d@ == dist(id, key),
+{
+    assert(d@ =~= dist(id, key));
+}
+
+pub proof fn lemma_fcn_final(t: &KademliaRoutingTable, key: &DhtKey, cs: Seq<(NodeInfo, [u8; 32])>, tb: int, count: usize, r: Seq<NodeInfo>)
+    requires
+        t.wf(), 0 <= tb < 256,
+        all_origin(t, key, cs, tb, 256, 0, -1, 0), all_covered(t, cs, tb, 256, 0, -1, 0), ids_distinct(cs),
+        tail_post(cs, count, r),
+    ensures
+        fcn_post(t, key, count, r),
+{
+    let n = cs.len() as int;
+    let (p, q) = choose|p: Seq<int>, q: Seq<int>| is_perm(p, q, n)
+        && (forall|i: int, j: int| 0 <= i < j < cs.len() ==> lex_le(#[trigger] cs[p[i]].1@, #[trigger] cs[p[j]].1@))
+        && r.len() == (if count <= cs.len() { count as int } else { cs.len() as int })
+        && (forall|i: int| 0 <= i < r.len() ==> #[trigger] r[i] == cs[p[i]].0);
+    // every candidate is a table entry carrying its distance
+    assert forall|k: int| 0 <= k < n implies t.lists((#[trigger] cs[k]).0.id) && cs[k].1@ == dist(cs[k].0.id, key) by {
+        assert(origin(t, key, cs[k], tb, 256, 0, -1, 0));
+        let (b, j) = choose|b: int, j: int| #[trigger] cand_ok(t, key, cs[k], b, j)
+            && ((0 == 0 && visited(b, tb, 256)) || (0 == 1 && vis_a(b, tb, 256)) || (0 == 2 && vis_b(b, tb, 256)) || (b == -1 && j < 0));
+        assert(t.buckets@[b].nodes@[j].id == cs[k].0.id);
+        assert(seq_has(t.buckets@[b].nodes@, cs[k].0.id));
+        lemma_is_xor_dist(cs[k].0.id, key, cs[k].1);
+    }
+    assert forall|i: int| 0 <= i < r.len() implies t.lists((#[trigger] r[i]).id) by {
+        assert(r[i] == cs[p[i]].0);
+        assert(0 <= p[i] < n);
+    }
+    // strictly ascending
+    assert forall|i: int, j: int| 0 <= i < j < n implies lex_lt(dist((#[trigger] cs[p[i]]).0.id, key), dist((#[trigger] cs[p[j]]).0.id, key)) by {
+        assert(0 <= p[i] < n && 0 <= p[j] < n);
+        assert(q[p[i]] == i && q[p[j]] == j);
+        assert(p[i] != p[j]);
+        assert(lex_le(cs[p[i]].1@, cs[p[j]].1@));
+        assert(cs[p[i]].0.id != cs[p[j]].0.id);
+        if dist(cs[p[i]].0.id, key) == dist(cs[p[j]].0.id, key) {
+            lemma_dist_injective(cs[p[i]].0.id, cs[p[j]].0.id, key);
+        }
+    }
+    assert forall|i: int, j: int| 0 <= i < j < r.len() implies lex_lt(dist((#[trigger] r[i]).id, key), dist((#[trigger] r[j]).id, key)) by {
+        assert(r[i] == cs[p[i]].0 && r[j] == cs[p[j]].0);
+        assert(lex_lt(dist(cs[p[i]].0.id, key), dist(cs[p[j]].0.id, key)));
+    }
+    // a listed peer is omitted only when the answer is full, and then everything returned is closer
+    assert forall|x: NodeId| #[trigger] t.lists(x) && !(exists|i: int| 0 <= i < r.len() && (#[trigger] r[i]).id == x) implies
+        r.len() == count && forall|i: int| 0 <= i < r.len() ==> lex_lt(dist((#[trigger] r[i]).id, key), dist(x, key)) by {
+        let b = choose|b: int| 0 <= b < t.buckets@.len() && seq_has((#[trigger] t.buckets@[b]).nodes@, x);
+        let j = choose|j: int| 0 <= j < t.buckets@[b].nodes@.len() && (#[trigger] t.buckets@[b].nodes@[j]).id == x;
+        assert(visited(b, tb, 256));
+        assert(covered(t, cs, b, j));
+        let k = choose|k: int| 0 <= k < cs.len() && (#[trigger] cs[k]).0 == t.buckets@[b].nodes@[j];
+        let m = q[k];
+        assert(0 <= m < n && p[m] == k);
+        if m < r.len() {
+            assert(r[m] == cs[p[m]].0);
+            assert(r[m].id == x);
+            assert(false);
+        }
+        assert(r.len() < n);
+        assert(r.len() == count);
+        assert forall|i: int| 0 <= i < r.len() implies lex_lt(dist((#[trigger] r[i]).id, key), dist(x, key)) by {
+            assert(r[i] == cs[p[i]].0);
+            assert(i < m);
+            assert(lex_lt(dist(cs[p[i]].0.id, key), dist(cs[p[m]].0.id, key)));
+        }
+    }
+}
+
